@@ -195,6 +195,74 @@ impl SimFs {
 /// One crash state: file name -> content.
 type State = BTreeMap<String, Vec<u8>>;
 
+/// A crash state as a recipe over a shared snapshot of the simulated file system (states are
+/// materialised only while they are hashed and while they are recovered).
+#[derive(Clone)]
+enum StateSpec {
+    Full(std::sync::Arc<SimFs>),
+    /// the in-flight write `data[..upto]` applied on top of the snapshot
+    Partial { fs: std::sync::Arc<SimFs>, ev: std::sync::Arc<Ev>, upto: usize, root: PathBuf },
+    Cut { fs: std::sync::Arc<SimFs>, file: String, cut: usize, zero_fill: bool, rewrite_applied: bool, others_durable: bool },
+    Holes { fs: std::sync::Arc<SimFs>, file: String, mask: u32, others_durable: bool },
+}
+
+fn appends_of(f: &SimFile) -> Vec<(usize, usize)> {
+    f.pending.iter().cloned().filter(|(o, _)| *o >= f.synced).collect()
+}
+
+fn rewrites_of(f: &SimFile) -> Vec<(usize, usize)> {
+    f.pending.iter().cloned().filter(|(o, _)| *o < f.synced).collect()
+}
+
+fn materialise_spec(spec: &StateSpec) -> State {
+    match spec {
+        StateSpec::Full(fs) => full_state(fs),
+        StateSpec::Partial { fs, ev, upto, root } => {
+            let mut f2 = (**fs).clone();
+            if let Ev::Write { path, offset, data } = &**ev {
+                f2.apply(&Ev::Write { path: path.clone(), offset: *offset, data: data[..*upto].to_vec() }, root);
+            }
+            full_state(&f2)
+        }
+        StateSpec::Cut { fs, file, cut, zero_fill, rewrite_applied, others_durable } => {
+            let f = &fs.files[file];
+            let mut content = f.data.clone();
+            if !rewrite_applied {
+                for (o, l) in rewrites_of(f) {
+                    let e = (o + l).min(f.durable.len());
+                    if o < e {
+                        content[o..e].copy_from_slice(&f.durable[o..e]);
+                    }
+                }
+            }
+            if *zero_fill {
+                for b in content[*cut..].iter_mut() {
+                    *b = 0;
+                }
+            } else {
+                content.truncate(*cut);
+            }
+            let mut s = if *others_durable { durable_state(fs) } else { full_state(fs) };
+            s.insert(file.clone(), content);
+            s
+        }
+        StateSpec::Holes { fs, file, mask, others_durable } => {
+            let f = &fs.files[file];
+            let mut content = f.data.clone();
+            for (i, (o, l)) in appends_of(f).iter().enumerate() {
+                if mask & (1 << i) == 0 {
+                    for b in content[*o..o + l].iter_mut() {
+                        *b = 0;
+                    }
+                }
+            }
+            let mut s = if *others_durable { durable_state(fs) } else { full_state(fs) };
+            s.insert(file.clone(), content);
+            s
+        }
+    }
+}
+
 fn full_state(fs: &SimFs) -> State {
     fs.files.iter().map(|(n, f)| (n.clone(), f.data.clone())).collect()
 }
@@ -227,63 +295,36 @@ fn interesting_cuts(lo: usize, hi: usize, segs: &[(usize, usize)], fine_limit: u
 }
 
 /// Power-loss states of `fs`: the un-synced part of each file lost in every enumerated way.
-fn power_loss_states(fs: &SimFs, fine_limit: usize) -> Vec<(String, State)> {
-    let mut out: Vec<(String, State)> = Vec::new();
+fn power_loss_states(fs: &std::sync::Arc<SimFs>, fine_limit: usize) -> Vec<(String, StateSpec)> {
+    let mut out: Vec<(String, StateSpec)> = Vec::new();
     let names: Vec<String> = fs.files.keys().cloned().collect();
-    // base alternatives for the files that are not being varied: fully durable-only, or fully present
-    let bases: Vec<(&str, State)> = vec![("others-present", full_state(fs)), ("others-durable", durable_state(fs))];
     for n in &names {
         let f = &fs.files[n];
         if f.pending.is_empty() {
             continue;
         }
-        let appends: Vec<(usize, usize)> = f.pending.iter().cloned().filter(|(o, _)| *o >= f.synced).collect();
-        let rewrites: Vec<(usize, usize)> = f.pending.iter().cloned().filter(|(o, _)| *o < f.synced).collect();
-        for (bname, base) in &bases {
+        let appends = appends_of(f);
+        let rewrites = rewrites_of(f);
+        for others_durable in [false, true] {
+            let bname = if others_durable { "others-durable" } else { "others-present" };
             // (i) truncation at every enumerated byte, tail absent or zero-filled
             for cut in interesting_cuts(f.synced, f.data.len(), &appends, fine_limit) {
                 for zero_fill in [false, true] {
+                    if cut == f.data.len() && zero_fill {
+                        continue;
+                    }
                     for rewrite_applied in if rewrites.is_empty() { vec![true] } else { vec![false, true] } {
-                        let mut content = f.data.clone();
-                        if !rewrite_applied {
-                            // rewrites of the durable area (the index header) did not reach the disk
-                            for (o, l) in &rewrites {
-                                let e = (o + l).min(f.durable.len());
-                                if *o < e {
-                                    content[*o..e].copy_from_slice(&f.durable[*o..e]);
-                                }
-                            }
-                        }
-                        if zero_fill {
-                            for b in content[cut..].iter_mut() {
-                                *b = 0;
-                            }
-                        } else {
-                            content.truncate(cut);
-                        }
-                        if cut == f.data.len() && zero_fill {
-                            continue;
-                        }
-                        let mut s = base.clone();
-                        s.insert(n.clone(), content);
-                        out.push((format!("{n}: cut at {cut}{}{} / {bname}", if zero_fill { " zero-filled" } else { "" }, if rewrite_applied { "" } else { " header rewrite lost" }), s));
+                        out.push((
+                            format!("{n}: cut at {cut}{}{} / {bname}", if zero_fill { " zero-filled" } else { "" }, if rewrite_applied { "" } else { " header rewrite lost" }),
+                            StateSpec::Cut { fs: fs.clone(), file: n.clone(), cut, zero_fill, rewrite_applied, others_durable },
+                        ));
                     }
                 }
             }
             // (ii) un-synced writes dropped as subsets (holes), file at full length
             if appends.len() >= 2 && appends.len() <= 8 {
                 for mask in 1u32..(1 << appends.len()) - 1 {
-                    let mut content = f.data.clone();
-                    for (i, (o, l)) in appends.iter().enumerate() {
-                        if mask & (1 << i) == 0 {
-                            for b in content[*o..o + l].iter_mut() {
-                                *b = 0;
-                            }
-                        }
-                    }
-                    let mut s = base.clone();
-                    s.insert(n.clone(), content);
-                    out.push((format!("{n}: un-synced writes kept mask {mask:b} / {bname}"), s));
+                    out.push((format!("{n}: un-synced writes kept mask {mask:b} / {bname}"), StateSpec::Holes { fs: fs.clone(), file: n.clone(), mask, others_durable }));
                 }
             }
         }
@@ -654,19 +695,18 @@ pub fn recovery_configs() -> Vec<WCfg> {
 }
 
 pub fn run(specs: &[CrashSpec], threads: usize, max_states_per_history: usize) -> CrashResult {
+    use std::sync::Arc;
     let mut stats = CrashStats::default();
     let mut violations: Vec<CrashViolation> = Vec::new();
     let cfgs = recovery_configs();
-    // 1. record every history, build crash points and states
     struct Work {
-        spec_i: usize,
         crash_after: usize,
         cp: CrashPoint,
         name: String,
-        state: State,
+        state: StateSpec,
     }
-    let mut work: Vec<Work> = Vec::new();
-    for (spi, spec) in specs.iter().enumerate() {
+    // history by history: the states of one history are built, recovered, judged and dropped
+    for spec in specs.iter() {
         let rec = match record(spec) {
             Ok(r) => r,
             Err(e) => {
@@ -677,23 +717,26 @@ pub fn run(specs: &[CrashSpec], threads: usize, max_states_per_history: usize) -
         stats.histories += 1;
         let io_events = rec.events.iter().filter(|e| !matches!(e, Ev::Begin(_) | Ev::End(..))).count();
         stats.log_events += io_events;
+        let mut work: Vec<Work> = Vec::new();
         let mut fs = SimFs::default();
         let mut seen: HashSet<u64> = HashSet::new();
         let mut acked: Vec<usize> = Vec::new();
         let mut inflight: Option<usize> = None;
         let mut sealed: BTreeSet<usize> = BTreeSet::new();
         let mut index_written: BTreeSet<usize> = BTreeSet::new();
-        let mut per_history = 0usize;
         for (ei, ev) in rec.events.iter().enumerate() {
             // in-flight large write cut at page boundaries (kill)
-            let mut partials: Vec<(String, State)> = Vec::new();
-            if let Ev::Write { path, offset, data } = ev {
+            let mut partials: Vec<(String, StateSpec)> = Vec::new();
+            if let Ev::Write { path, data, .. } = ev {
                 if data.len() > 4096 {
+                    let before = Arc::new(fs.clone());
+                    let evarc = Arc::new(ev.clone());
                     let mut m = 4096;
                     while m < data.len() {
-                        let mut f2 = fs.clone();
-                        f2.apply(&Ev::Write { path: path.clone(), offset: *offset, data: data[..m].to_vec() }, &rec.dir);
-                        partials.push((format!("kill inside write of {} at +{m}", short_path(path)), full_state(&f2)));
+                        partials.push((
+                            format!("kill inside write of {} at +{m}", short_path(path)),
+                            StateSpec::Partial { fs: before.clone(), ev: evarc.clone(), upto: m, root: rec.dir.clone() },
+                        ));
                         m += 4096;
                     }
                 }
@@ -748,98 +791,94 @@ pub fn run(specs: &[CrashSpec], threads: usize, max_states_per_history: usize) -
             if let Some(i) = inflight {
                 oracle::apply_model(&mut m, spec.history[i], &value_tag_of(i, &spec.history[i]), 4);
             }
-            let mk = |kill: bool| CrashPoint { model: m.clone(), acked_per_blob: acked_per_blob.clone(), sealed: sealed.clone(), kill };
-            let mut add = |name: String, state: State, kill: bool, work: &mut Vec<Work>, stats: &mut CrashStats, per_history: &mut usize| {
-                if *per_history >= max_states_per_history {
-                    return;
+            let snapshot = Arc::new(fs.clone());
+            let mut candidates: Vec<(String, StateSpec, bool)> = vec![(format!("kill after event {ei}"), StateSpec::Full(snapshot.clone()), true)];
+            for (n, sp) in partials {
+                candidates.push((n, sp, true));
+            }
+            for (n, sp) in power_loss_states(&snapshot, spec.fine_limit) {
+                candidates.push((format!("power loss after event {ei}: {n}"), sp, false));
+            }
+            for (name, sp, kill) in candidates {
+                if work.len() >= max_states_per_history {
+                    break;
                 }
-                if seen.insert(state_digest(&state) ^ if kill { 0x9e37 } else { 0 }) {
-                    *per_history += 1;
+                let digest = state_digest(&materialise_spec(&sp)) ^ if kill { 0x9e37 } else { 0 };
+                if seen.insert(digest) {
                     if kill {
                         stats.kill_states += 1;
                     } else {
                         stats.power_loss_states += 1;
                     }
-                    work.push(Work { spec_i: spi, crash_after: ei, cp: mk(kill), name, state });
+                    work.push(Work {
+                        crash_after: ei,
+                        cp: CrashPoint { model: m.clone(), acked_per_blob: acked_per_blob.clone(), sealed: sealed.clone(), kill },
+                        name,
+                        state: sp,
+                    });
                 }
-            };
-            add(format!("kill after event {ei}"), full_state(&fs), true, &mut work, &mut stats, &mut per_history);
-            for (n, s) in partials {
-                // the partial write belongs to the crash point *before* this event was complete
-                add(n, s, true, &mut work, &mut stats, &mut per_history);
-            }
-            for (n, s) in power_loss_states(&fs, spec.fine_limit) {
-                add(format!("power loss after event {ei}: {n}"), s, false, &mut work, &mut stats, &mut per_history);
             }
         }
         let _ = rec.outcomes;
-    }
-    stats.distinct_states = work.len();
-    // 2. recover every state under every configuration (batches of states per execution)
-    let batch_size = 24;
-    let batches: Vec<Vec<usize>> = (0..work.len()).collect::<Vec<_>>().chunks(batch_size).map(|c| c.to_vec()).collect();
-    let next = AtomicUsize::new(0);
-    let results: Mutex<Vec<(usize, usize, RecoveryObs)>> = Mutex::new(Vec::new());
-    std::thread::scope(|sc| {
-        for _ in 0..threads.max(1) {
-            sc.spawn(|| loop {
-                let bi = next.fetch_add(1, Ordering::Relaxed);
-                if bi >= batches.len() {
-                    break;
-                }
-                let items: Vec<(usize, String, State)> = batches[bi].iter().map(|wi| (*wi, work[*wi].name.clone(), work[*wi].state.clone())).collect();
-                let spec = specs[work[batches[bi][0]].spec_i].clone();
-                let mut cfg = CtlConfig::sequential(IoMode::Inplace);
-                cfg.auto_clock = None;
-                let cfgs2 = cfgs.clone();
-                let exec = ctl::execute(cfg, &[], None, move || batch_task(spec, cfgs2, items));
-                match exec.result {
-                    Ok(v) => results.lock().unwrap().extend(v),
-                    Err(e) => {
-                        let end = exec.trace.end.clone();
-                        for wi in &batches[bi] {
-                            results.lock().unwrap().push((
-                                *wi,
-                                0,
-                                RecoveryObs {
-                                    init_err: None,
-                                    keys: BTreeMap::new(),
-                                    corrupted_count: 0,
-                                    quarantined: BTreeMap::new(),
-                                    recovered: BTreeMap::new(),
-                                    probe_ok: Ok(()),
-                                    panicked: Some(format!("batch failed: {e}; end {end:?}")),
-                                },
-                            ));
-                        }
-                        if !matches!(end, EndState::Finished) {}
+        stats.distinct_states += work.len();
+        // recover every state under every configuration (batches of states per execution)
+        let batch_size = 24;
+        let batches: Vec<Vec<usize>> = (0..work.len()).collect::<Vec<_>>().chunks(batch_size).map(|c| c.to_vec()).collect();
+        let next = AtomicUsize::new(0);
+        let results: Mutex<Vec<(usize, usize, Vec<Finding>)>> = Mutex::new(Vec::new());
+        std::thread::scope(|sc| {
+            for _ in 0..threads.max(1) {
+                sc.spawn(|| loop {
+                    let bi = next.fetch_add(1, Ordering::Relaxed);
+                    if bi >= batches.len() {
+                        break;
                     }
-                }
-            });
-        }
-    });
-    let mut results = results.into_inner().unwrap();
-    results.sort_by_key(|r| (r.0, r.1));
-    for (wi, ci, obs) in results {
-        stats.recoveries += 1;
-        let w = &work[wi];
-        let fs = judge_state(&specs[w.spec_i], &w.cp, &cfgs[ci], &obs, &w.state);
-        if stats.samples.len() < 4 && wi % 211 == 7 && ci == 0 {
-            stats.samples.push(format!("{} :: {}", specs[w.spec_i].name, w.name));
-        }
-        if !fs.is_empty() {
-            stats.violations += 1;
-            let n = stats.violations_by_kind.entry(fs[0].kind.clone()).or_insert(0);
-            *n += 1;
-            // keep the first few of every kind
-            if *n <= 6 {
-                violations.push(CrashViolation {
-                    spec: specs[w.spec_i].clone(),
-                    crash_after_event: w.crash_after,
-                    state: w.name.clone(),
-                    config: format!("validate_data={} ignore_corrupted={}", cfgs[ci].validate_data, cfgs[ci].ignore_corrupted),
-                    findings: fs,
+                    let states: Vec<State> = batches[bi].iter().map(|wi| materialise_spec(&work[*wi].state)).collect();
+                    let items: Vec<(usize, String, State)> = batches[bi].iter().zip(states.iter()).map(|(wi, st)| (*wi, work[*wi].name.clone(), st.clone())).collect();
+                    let mut cfg = CtlConfig::sequential(IoMode::Inplace);
+                    cfg.auto_clock = None;
+                    let (cfgs2, spec2) = (cfgs.clone(), spec.clone());
+                    let exec = ctl::execute(cfg, &[], None, move || batch_task(spec2, cfgs2, items));
+                    let mut judged = Vec::new();
+                    match exec.result {
+                        Ok(v) => {
+                            for (wi, ci, obs) in v {
+                                let pos = batches[bi].iter().position(|x| *x == wi).unwrap();
+                                judged.push((wi, ci, judge_state(spec, &work[wi].cp, &cfgs[ci], &obs, &states[pos])));
+                            }
+                        }
+                        Err(e) => {
+                            for wi in &batches[bi] {
+                                judged.push((*wi, 0, vec![finding("panic", format!("batch failed: {e}; end {:?}", exec.trace.end))]));
+                            }
+                        }
+                    }
+                    results.lock().unwrap().extend(judged);
                 });
+            }
+        });
+        let mut results = results.into_inner().unwrap();
+        results.sort_by_key(|r| (r.0, r.1));
+        for (wi, ci, fs) in results {
+            stats.recoveries += 1;
+            let w = &work[wi];
+            if stats.samples.len() < 4 && wi % 211 == 7 && ci == 0 {
+                stats.samples.push(format!("{} :: {}", spec.name, w.name));
+            }
+            if !fs.is_empty() {
+                stats.violations += 1;
+                let n = stats.violations_by_kind.entry(fs[0].kind.clone()).or_insert(0);
+                *n += 1;
+                // keep the first few of every kind
+                if *n <= 6 {
+                    violations.push(CrashViolation {
+                        spec: spec.clone(),
+                        crash_after_event: w.crash_after,
+                        state: w.name.clone(),
+                        config: format!("validate_data={} ignore_corrupted={}", cfgs[ci].validate_data, cfgs[ci].ignore_corrupted),
+                        findings: fs,
+                    });
+                }
             }
         }
     }
